@@ -365,8 +365,8 @@ theorem checkKeyProof_NP (o : GroupOps G) (ho : OpsNP o) (H : List ByteArray →
       cases hl : lookup k pk.r with
       | some v => simp
       | none => rw [hl] at this; simp at this
-    refine NP_bind (ho.inv _) fun _ => NP_bind (ho.pow _ _) fun _ => NP_bind (ho.pow _ _) fun _ =>
-      NP_bind (keyProofLoop_NP o ho pk p.c p.xrCap hall) fun rc => ?_
+    refine NP_bind (ho.inv _) fun _ => NP_bind (ho.inv _) fun _ => NP_bind (ho.pow _ _) fun _ =>
+      NP_bind (ho.pow _ _) fun _ => NP_bind (keyProofLoop_NP o ho pk p.c p.xrCap hall) fun rc => ?_
     obtain ⟨rs, caps⟩ := rc
     exact NP_ite (NP_ok _) NP_err
 
